@@ -231,6 +231,7 @@ type clRun struct {
 	mutations    int
 	compares     int
 	settled      bool
+	settling     bool
 	coldStarts   int
 	idleWindow   bool
 }
@@ -535,7 +536,7 @@ func (cr *clRun) exec(i int, op Op) {
 		rn := cr.rep(op.A)
 		kind := op.S
 		cr.w.After(time.Duration(op.B)*time.Microsecond, fmt.Sprintf("later-%d", i), func() {
-			if cr.stopped() {
+			if cr.stopped() || cr.settling {
 				return
 			}
 			switch kind {
@@ -1747,6 +1748,7 @@ func (cr *clRun) settle() {
 	cr.c.diskArms = nil
 	cr.c.mu.Unlock()
 	cr.faultsActive = false
+	cr.settling = true // pending `later` faults are dropped: faults have stopped
 	started := 0
 	for _, rn := range c.reps {
 		if rn.up {
